@@ -56,6 +56,34 @@ func init() {
 			if t2.TxID() != tx.TxID() {
 				return "txid-differs"
 			}
+			// the inputs as a list of their own: same serialisation, and the decoded objects are independent of each other
+			// (completing one unsigned input in place must not show up in another, nor in a second decode)
+			if jsi, err := json.Marshal(tx.Inputs); err == nil && len(tx.Inputs) > 0 {
+				var a, b []*bt.Input
+				if json.Unmarshal(jsi, &a) != nil || json.Unmarshal(jsi, &b) != nil || len(a) != len(tx.Inputs) || len(b) != len(a) {
+					return "inputs-differ"
+				}
+				ser := func(l []*bt.Input) string {
+					var sb strings.Builder
+					for _, in := range l {
+						sb.WriteString(hex.EncodeToString(in.Bytes(false)) + "|")
+					}
+					return sb.String()
+				}
+				if ser(a) != ser(tx.Inputs) {
+					return "inputs-differ"
+				}
+				for i := range a {
+					if a[i].UnlockingScript == nil {
+						continue
+					}
+					beforeA, beforeB := ser(append(append([]*bt.Input{}, a[:i]...), a[i+1:]...)), ser(b)
+					*a[i].UnlockingScript = append(*a[i].UnlockingScript, 0x51)
+					if ser(append(append([]*bt.Input{}, a[:i]...), a[i+1:]...)) != beforeA || ser(b) != beforeB {
+						return "decoded-inputs-share-memory"
+					}
+				}
+			}
 			return "ok:" + hex.EncodeToString(t2.Bytes())
 		})
 		node := q(func() string {
